@@ -125,6 +125,10 @@ def Restreamed(sub, dec, dunit, enc, eunit, sizec): return N("Restreamed", sub=s
 def ProcessXor(key, sub): return N("ProcessXor", key=asexpr(key), sub=sub)
 def ProcessRotateLeft(amount, group, sub): return N("ProcessRotateLeft", amount=asexpr(amount), group=asexpr(group), sub=sub)
 def Checksum(field, hashname, over): return N("Checksum", field=field, hash=hashname, over=asexpr(over), hk=[], hv=[])
+def Rec(name, sub): return N("Rec", name=name, sub=sub)      # binds a name for LazyBound(name) below it; not a construct
+def LazyBound(ref): return N("LazyBound", ref=ref)
+def Indexing(sub, count, index, empty=None): return N("Indexing", sub=sub, count=V.enc(count), index=V.enc(index), empty=V.enc(empty))
+def Slicing(sub, count, start, stop, step=1, empty=None): return N("Slicing", sub=sub, count=V.enc(count), start=V.enc(start), stop=V.enc(stop), step=step, empty=V.enc(empty))
 def Hex(sub): return N("Hex", sub=sub)
 def HexDump(sub): return N("HexDump", sub=sub)
 # macros / aliases
@@ -188,6 +192,7 @@ def prime_hashes(prog, datas):
                 if kd not in node["hk"]:
                     node["hk"].append(kd); node["hv"].append(V.enc(h(bytes(data))))
 
+_REC = {}
 def realize(n):
     """AST -> live construct object, through the public API only."""
     import construct as cs
@@ -283,6 +288,19 @@ def realize(n):
     if k == "LazyStruct": return cs.LazyStruct(*[R(s) for s in n["subs"]])
     if k == "LazyArray": return cs.LazyArray(E(n["count"]), R(n["sub"]))
     if k == "Compressed": return cs.Compressed(R(n["sub"]), n["codec"])
+    if k == "Rec":
+        holder = {}
+        _REC.setdefault(n["name"], []).append(holder)
+        try:
+            holder["c"] = R(n["sub"])
+        finally:
+            _REC[n["name"]].pop()
+        return holder["c"]
+    if k == "LazyBound":
+        holder = _REC[n["ref"]][-1]
+        return cs.LazyBound(lambda holder=holder: holder["c"])
+    if k == "Indexing": return cs.Indexing(R(n["sub"]), V.dec(n["count"]), V.dec(n["index"]), empty=V.dec(n["empty"]))
+    if k == "Slicing": return cs.Slicing(R(n["sub"]), V.dec(n["count"]), V.dec(n["start"]), V.dec(n["stop"]), n["step"], empty=V.dec(n["empty"]))
     if k == "Opaque": return n["_obj"]()          # harness-only node: a construct built directly (law right-hand sides)
     raise ValueError("cannot realize %s" % k)
 
